@@ -81,5 +81,54 @@ def main() -> int:
         return 2
 
 
+def _descendants(me: int) -> list[int]:
+    kids: dict[int, list[int]] = {}
+    for d in os.listdir("/proc"):
+        if d.isdigit():
+            try:
+                with open(f"/proc/{d}/stat") as fh:
+                    ppid = int(fh.read().rsplit(")", 1)[1].split()[1])
+                kids.setdefault(ppid, []).append(int(d))
+            except (OSError, ValueError, IndexError):
+                pass
+    out, todo = [], [me]
+    while todo:
+        for k in kids.get(todo.pop(), []):
+            out.append(k)
+            todo.append(k)
+    return out
+
+
+def _reap() -> None:
+    """Kill whatever this run started and left behind (pool workers of a killed child interpreter, zygotes, managers, strace).
+    Orphaned pool workers never notice that their parent died; thousands of them once ate the machine's memory and had other
+    checks OOM-killed.  The run is a child subreaper, so orphans are re-parented to it and found by the walk over /proc."""
+    import signal
+    import time
+    me = os.getpid()
+    for sig in (signal.SIGTERM, signal.SIGKILL):
+        left = _descendants(me)
+        for k in left:
+            try:
+                os.kill(k, sig)
+            except (ProcessLookupError, PermissionError):
+                pass
+        if not left:
+            return
+        time.sleep(0.3)
+
+
 if __name__ == "__main__":
-    sys.exit(main())
+    import signal
+    try:
+        import ctypes
+        ctypes.CDLL(None, use_errno=True).prctl(36, 1, 0, 0, 0)     # PR_SET_CHILD_SUBREAPER
+    except Exception:  # noqa: BLE001
+        pass
+    signal.signal(signal.SIGTERM, lambda *_: sys.exit(2))       # a `timeout` still runs the reaper below
+    rc = 2
+    try:
+        rc = main()
+    finally:
+        _reap()
+    sys.exit(rc)
